@@ -277,3 +277,37 @@ Proof.
   destruct ((n_bits <? sbit signed + n_frac) || (n_frac <? 0)) eqn:E2; [reflexivity|].
   apply orb_false_iff in E2. destruct E2 as [Ea Eb]. apply Z.ltb_ge in Ea. apply Z.ltb_ge in Eb. lia.
 Qed.
+
+Lemma source_is_model :
+  (forall signed n_bits n_frac x, src_float_to_fp signed n_bits n_frac x = float_to_fp signed n_bits n_frac x) /\
+  (forall n_frac v, src_fp_to_float n_frac v = fp_to_float n_frac v) /\
+  (forall s n f, src_validate (VBool s) (VInt n) (VInt f) =
+                 bind (validate_fp_params s n f) (fun mm => Ok (VTup (VInt (fst mm)) (VFlt (snd mm))))) /\
+  (forall signed n_bits n_frac x, 0 <= n_bits ->
+     src_float_to_fix signed n_bits n_frac x = float_to_fix signed n_bits n_frac x) /\
+  (forall signed n_bits n_frac w, src_fix_to_float signed n_bits n_frac w = fix_to_float signed n_bits n_frac w) /\
+  (forall signed n_bits n_frac x,
+     src_np_float_to_fix signed n_bits n_frac x = np_float_to_fix signed n_bits n_frac x) /\
+  (forall n_frac v, src_np_fix_to_float n_frac v = np_fix_to_float n_frac v).
+Proof.
+  exact (conj src_float_to_fp_eq (conj src_fp_to_float_eq (conj src_validate_eq (conj src_float_to_fix_eq
+        (conj src_fix_to_float_eq (conj src_np_float_to_fix_eq src_np_fix_to_float_eq)))))).
+Qed.
+
+Lemma source_sentences :
+  (forall signed n_bits n_frac (x : b64),
+     1 <= n_bits -> in_domain n_frac x ->
+     src_float_to_fp signed n_bits n_frac x = Ok (fp_spec signed n_bits n_frac (B2R x))) /\
+  (forall signed n_bits n_frac (x : b64),
+     n_bits = 8 \/ n_bits = 16 \/ n_bits = 32 \/ n_bits = 64 -> in_domain n_frac x ->
+     src_np_float_to_fix signed n_bits n_frac x = src_float_to_fp signed n_bits n_frac x) /\
+  (forall signed n_bits n_frac (x : b64),
+     valid_format signed n_bits n_frac -> in_domain n_frac x ->
+     exists v, src_float_to_fp signed n_bits n_frac x = Ok v /\
+               src_float_to_fix signed n_bits n_frac x = Ok (v mod 2 ^ n_bits)) /\
+  (forall signed n_bits n_frac w,
+     valid_format signed n_bits n_frac -> 0 <= w < 2 ^ n_bits ->
+     src_fix_to_float signed n_bits n_frac w = src_fp_to_float n_frac (word_value signed n_bits w)).
+Proof.
+  exact (conj source_fp_exact (conj source_numpy_agrees (conj source_fix_agrees_mod_2n source_fix_to_float_agrees))).
+Qed.
